@@ -9,7 +9,11 @@ def rules(t):
     out = []
     f = t.fn("SendChannelReliable::get_packets_to_send")
     r = RuleResult("C15.a", "every reliable emission is behind the resend gate: never sent before, or `now - last_sent >= resend_time` (and `!acked[i]` for slices)", floor=2)
-    emits = [c for c in t.calls(r"Vec.*::push$", f) if "Bytes::clone" in fmt(t.arg(c, 1)) or "ReliableSlice" in fmt(t.arg(c, 1))]
+    # emission anchors: a small message enters the batch (push of a clone); a slice's payload is cut (Bytes::slice) - what happens to the cut slice
+    # afterwards (pushed straight into a packet, or collected first and wrapped by the caller) does not matter for the gate
+    cuts = list(t.calls(r"Bytes::slice$", f))
+    emits = [c for c in t.calls(r"Vec.*::push$", f) if "Bytes::clone" in fmt(t.arg(c, 1)) or (not cuts and "ReliableSlice" in fmt(t.arg(c, 1)))] + cuts
+    is_slice = lambda c_: c_ in cuts or "ReliableSlice" in fmt(t.arg(c_, 1))
     is_age = lambda a: ("Duration::sub" in fmt(a) or " Sub " in fmt(a)) and "current_time" in fmt(a) and "last_sent" in fmt(a)
     is_rt = lambda b: fmt(strip(b)).endswith(".resend_time") or "resend_time" in fmt(b)[-14:]
     # first transmission: last_sent is None
@@ -33,8 +37,8 @@ def rules(t):
     reach = reachable_avoiding(f, 0, pass_edges)
     for c in emits:
         r.site(c, fmt(t.arg(c, 1))[:40])
-        if c.bb in reach: r.bad(f"gate|{'slice' if 'ReliableSlice' in fmt(t.arg(c, 1)) else 'small'}", c, "a reliable message/slice can be emitted on a path that passed neither `last_sent is None` nor `now - last_sent >= resend_time`: it is retransmitted before resend_time")
-        if "ReliableSlice" in fmt(t.arg(c, 1)):
+        if c.bb in reach: r.bad(f"gate|{'slice' if is_slice(c) else 'small'}", c, "a reliable message/slice can be emitted on a path that passed neither `last_sent is None` nor `now - last_sent >= resend_time`: it is retransmitted before resend_time")
+        if is_slice(c):
             ab = [br for br in t.branches(f) if br["kind"] == "bool" and "acked" in fmt(br["raw"]) and "::index(" in fmt(br["raw"])]
             if not any(t.edge_dominates(f, br["f_edge"], c.bb) for br in ab): r.bad("acked", c, "slice emitted without the `acked[i]` test")
     if not pass_edges - {e for e in pass_edges if False} or not early_edges: r.bad("gate-missing", None, "no resend gate comparing `now - last_sent` with resend_time found")
